@@ -33,12 +33,16 @@ def run_C10(ctx, rep):
     byods_rules.check_L15(ctx, rep)
     byods_rules.check_L16(ctx, rep, ['union_find'])
     lib_rules.classify_writers(ctx, rep)
+    gen_driver.run_gen(ctx, rep, ['G5', 'G1G3', 'G3r', 'UI'], only_tags=['eqrel'], floors={'G5.merge': 20})
+    gen_driver.run_tv(ctx, rep, only_tags=['eqrel'], floors={'R1': 20})
 
 
 def run_C11(ctx, rep):
     byods_rules.check_L5(ctx, rep, 'trrel_ternary_ind')
     byods_rules.check_L12(ctx, rep)
     byods_rules.check_L14(ctx, rep)
+    gen_driver.run_gen(ctx, rep, ['G5', 'G1G3', 'G3r', 'UI'], only_tags=['trrel'], floors={'G5.merge': 20})
+    gen_driver.run_tv(ctx, rep, only_tags=['trrel'], floors={'R1': 15})
 
 
 def run_C12(ctx, rep):
@@ -46,6 +50,8 @@ def run_C12(ctx, rep):
     byods_rules.check_L14(ctx, rep)
     byods_rules.check_L16(ctx, rep, ['trrel_union_find'])
     byods_rules.check_L17(ctx, rep)
+    gen_driver.run_gen(ctx, rep, ['G5', 'G1G3', 'G3r', 'UI'], only_tags=['trrel_uf'], floors={'G5.merge': 20})
+    gen_driver.run_tv(ctx, rep, only_tags=['trrel_uf'], floors={'R1': 15})
 
 
 def run_C05(ctx, rep):
@@ -253,18 +259,21 @@ PROPS = {
         'rule_text': 'one instance = one aggregation site / one index maintenance site',
     },
     'C10': {
-        'run': run_C10, 'corpus': False, 'level': 'other',
+        'run': run_C10, 'level': 'other',
         'explanation': 'structural obligations of the eqrel provider: L5 the delta / total produced by every per-key merge of the ternary '
                        'wrapper is a place of the caller\'s delta / total or is stored back (sibling cross-check with the trrel and '
                        'trrel_uf wrappers); L15 the binary merge (serial and parallel siblings) computes total.combined=D, delta.old=D, '
                        'delta.combined=D+N, new=empty by abstract interpretation over symbolic contents; L16 the read-only find follows the '
-                       'subsumption chain to its root. NOT decided: that EqRel is an equivalence closure, that the index views enumerate '
+                       'subsumption chain to its root; on the corpus programs backed by the provider (binary / ternary, every supported access '
+                       'pattern, non-recursive and recursive stratum, parallel binary form) the generated protocol holds: exactly one real '
+                       'shift of the shared structure per iteration - index views must not shift it again (G5), guarded insertion (G1), every '
+                       'rule variant reads the relation as the rule text says (R1-R5). NOT decided: that EqRel is an equivalence closure, that the index views enumerate '
                        'exactly combined minus old.',
         'assumptions': ['EqRel (union-find with set subsumptions) add/combine are correct on values', 'index views are not analysed'],
         'rule_text': 'one instance = one per-key merge call site / one merge sequence / one find hit-arm / one writer',
     },
     'C11': {
-        'run': run_C11, 'corpus': False, 'level': 'other',
+        'run': run_C11, 'level': 'other',
         'explanation': 'structural obligations of the trrel provider: L5 (per-key merge outputs persist in the ternary wrapper), L12 the '
                        'reflexivity filter of the closure loop is not hard-wired on (constant propagation over all constructions of the '
                        'flag), L14 every join step of the inner semi-naive loop runs in every round (no short-circuit / dependent branch). '
@@ -273,7 +282,7 @@ PROPS = {
         'rule_text': 'one instance = one per-key merge call site / one construction of the flag / one loop step',
     },
     'C12': {
-        'run': run_C12, 'corpus': False, 'level': 'other',
+        'run': run_C12, 'level': 'other',
         'explanation': 'structural obligations of the trrel_uf provider: L5 on the binary-to-ternary adaptor, L14 on the inner loop of the '
                        'union-find backed merge, L16 find follows the subsumption chain, L17 sibling agreement of set_of / rev_set_of on '
                        'canonicalising class ids. NOT decided: TrRelUnionFind itself, the New/Delta/Total bookkeeping and panic freedom '
